@@ -15,6 +15,9 @@ import XsdataModel.Spec.XmlName
 namespace Props.C05
 open Py Xs.Conv Xs.Spec
 
+/-- the environment that knows ASCII only (used for concrete instances and witnesses) -/
+def asciiCEnv : CEnv := ⟨Env.ascii, fun _ => false, fun _ => []⟩
+
 /-! ## xs:boolean -/
 
 /-- what `BoolConverter.serialize` writes is an xs:boolean lexical form of the value -/
@@ -154,6 +157,11 @@ theorem b64_rt (e : Env) (bs : Bytes) (h : AllBytes bs) (s' : Str)
   exact ⟨hs, b64_accepts e _ s' bs hv hws⟩
 
 example : AllBytes [0, 255, 65] := by intro b hb; simp at hb; omega
+
+example : XsdHexBinary ['0', 'a', 'F', 'f'] [10, 255] :=
+  .pair '0' 'a' 0 10 _ _ (by decide) (by decide) (.pair 'F' 'f' 15 15 _ _ (by decide) (by decide) .nil)
+
+example : XsdBase64 ['Q', 'Q', '=', '='] [65] := .one 65 (by decide)
 
 /-! ## xs:decimal -/
 
@@ -364,6 +372,11 @@ theorem deserialize_none (e : CEnv) (s : Str) (kw : Kw) (tys : List Ty)
 
 example : ∀ x ∈ [Ty.str, Ty.float, Ty.int], x.inTable = true := by decide
 
+/-- the hypotheses of `priority_decides` on a concrete union `str | bool | int` and the string `"1"` -/
+example : deserialize asciiCEnv ['1'] (sortTys [.str, .bool, .int]) {} = some (.atom (.int 1)) :=
+  priority_decides asciiCEnv ['1'] {} [.str, .bool, .int] .int (.int 1) (by decide) (by decide)
+    (by decide) (by decide)
+
 /-- the priority numbers the documentation promises for the modelled types:
 int < bool < float < Decimal < XmlTime < XmlDate < XmlDateTime < QName < str -/
 theorem priority_order :
@@ -481,6 +494,8 @@ theorem uri_chars_cover :
       (fun c => Tables.uriBodyChars.contains c.toNat && Tables.uriFragmentChars.contains c.toNat) = true := by
   decide +kernel
 
+example : floatDatatype (.fin false 15 (-1)) = ['f', 'l', 'o', 'a', 't'] := by decide
+
 /-! ## `test(strict=True)` -/
 
 /-- a strict test on `int` succeeds only for the canonical spelling `str(int(s))` -/
@@ -492,6 +507,8 @@ theorem test_strict_int_sound (e : CEnv) (s : Str) (kw : Kw) (h : test e s [.int
   | some i =>
     simp [hd] at h
     exact ⟨i, rfl, h⟩
+
+example : test asciiCEnv ['4', '2'] [.int] true {} = true := by decide
 
 /-- a strict test on `Decimal` succeeds only when re-serialising gives the input back -/
 theorem test_strict_decimal_sound (e : CEnv) (s : Str) (kw : Kw) (h : test e s [.decimal] true kw = true) :
@@ -538,9 +555,6 @@ def QNameRoundTrip : Prop :=
   ∀ (e : CEnv) (ns : Option Str) (l : Str) (m : NsMap), EnvOk e → MapOk e m → QNameOk e ns l →
     ∃ s m', qnameSerialize (qtext ns l) (some m) = some (s, some m') ∧
       qnameDeserialize e s (some m') = some (qtext ns l)
-
-/-- the environment that knows ASCII only -/
-def asciiCEnv : CEnv := ⟨Env.ascii, fun _ => false, fun _ => []⟩
 
 theorem asciiCEnv_ok : EnvOk asciiCEnv := by
   intro c hs
@@ -674,6 +688,10 @@ theorem qname_accepts_prefixed (e : CEnv) (hok : EnvOk e) (pre post p l u : Str)
     | nil => simp [NsMap.get] at hget
     | cons a r => rfl
   exact deser_prefixed e hok p l u m hg hl hu hmne hget
+
+example : qnameDeserialize asciiCEnv [' ', 'x', 's', ':', 'i', 'n', 't', Char.ofNat 10]
+    (some [(some ['x', 's'], ['u', 'r', 'n', ':', 'x'])]) = some ['{', 'u', 'r', 'n', ':', 'x', '}', 'i', 'n', 't'] := by
+  decide
 
 /-- an unprefixed name denotes a name in the default namespace of the map, or in no
 namespace when there is none (XSD's rule for QName values) -/
